@@ -208,7 +208,14 @@ func c27Table(c *core.Ctx) []c27Row {
 	rep := 0
 	add := func(r c27Row) {
 		if alts := suiteAlternates[r.Suite]; len(alts) > 0 {
-			r.Suite = alts[rep%len(alts)]
+			alt := alts[rep%len(alts)]
+			// the scripted endpoints implement a subset of the suites: only draw cells they can run
+			if r.Scenario != "scripted_client" || scriptCanRun(r.Vers, alt) {
+				r.Suite = alt
+			}
+		}
+		if r.Scenario == "scripted_client" && !scriptCanRun(r.Vers, r.Suite) {
+			return
 		}
 		r.ID = fmt.Sprintf("r%05d", len(rows))
 		rows = append(rows, r)
@@ -341,6 +348,15 @@ func clientLeaf(cred, kind string) *tlspair.Leaf {
 
 var scriptBehaviours = []string{"conforming", "OmitCertificate", "EmptyCertificate", "OmitCertificateVerify", "BadCertificateVerify",
 	"VerifyWithOtherKey", "CertificateAfterCKX", "DuplicateCertificate", "SendCertificateUnrequested"}
+
+// scriptCanRun asks the scripted endpoints whether they implement (version, suite).
+func scriptCanRun(vers, suite uint16) bool {
+	su := tlsscript.SuiteByID(suite)
+	if !tlsscript.CanSeal(su) {
+		return false
+	}
+	return vers >= v10 && vers <= v12 && (!su.TLS12 || vers == v12)
+}
 
 // expectScripted: outcome at the server. "ok" | "fail" | "" (the statement does not decide: counted) | "skip".
 // A client "proves possession" when it sends its chain and a correct CertificateVerify made with the chain's key.
@@ -502,7 +518,7 @@ func (row c27Row) runScripted(c *core.Ctx) {
 		return
 	case "ok":
 		if serr != nil {
-			c.Violation("undecided:script_error:"+label+":"+cellKey, serr.Error(), row.ID, obs)
+			undecided(c, "script_error:"+label+":"+cellKey, serr.Error(), row.ID, obs)
 			return
 		}
 		if !serverOK || res == nil || !res.HandshakeComplete || !so.echoed || string(res.AppDataReceived) != "pong" {
@@ -521,7 +537,7 @@ func (row c27Row) runScripted(c *core.Ctx) {
 			return
 		}
 		if !localError(so.err) {
-			c.Violation("undecided:refusal_not_raised_by_detector:"+label+":"+cellKey, fmt.Sprintf("server error %v, script error %v", so.err, serr), row.ID, obs)
+			undecided(c, "refusal_not_raised_by_detector:"+label+":"+cellKey, fmt.Sprintf("server error %v, script error %v", so.err, serr), row.ID, obs)
 			return
 		}
 	}
@@ -707,7 +723,7 @@ func (row c27Row) runNameForm(c *core.Ctx) {
 			return
 		}
 		if !localError(cs.Err) {
-			c.Violation("undecided:refusal_not_raised_by_detector:"+label+":"+cellKey, fmt.Sprintf("client error %v, server error %v", cs.Err, ss.Err), row.ID, obs)
+			undecided(c, "refusal_not_raised_by_detector:"+label+":"+cellKey, fmt.Sprintf("client error %v, server error %v", cs.Err, ss.Err), row.ID, obs)
 			return
 		}
 	}
@@ -824,12 +840,12 @@ func (row c27Row) runResume(c *core.Ctx) {
 	}
 	if err := r1.PingPong([]byte("fill-cache"), []byte("ok")); err != nil {
 		r1.Close()
-		c.Violation("undecided:conn1_data_exchange_failed:"+cellKey, err.Error(), row.ID, obs)
+		undecided(c, "conn1_data_exchange_failed:"+cellKey, err.Error(), row.ID, obs)
 		return
 	}
 	r1.Close()
 	if base.only() == nil {
-		c.Violation("undecided:no_session_cached_by_conn1:"+cellKey, "tickets are enabled on both sides but the shared cache is empty after connection 1", row.ID, obs)
+		undecided(c, "no_session_cached_by_conn1:"+cellKey, "tickets are enabled on both sides but the shared cache is empty after connection 1", row.ID, obs)
 		return
 	}
 	// Y: the documented way to derive a configuration — Clone shares the session cache
@@ -891,7 +907,7 @@ func (row c27Row) runResume(c *core.Ctx) {
 			return
 		}
 		if !localError(cs2.Err) {
-			c.Violation("undecided:refusal_not_raised_by_detector:"+label+":"+cellKey, fmt.Sprintf("client error %v, server error %v", cs2.Err, ss2.Err), row.ID, obs)
+			undecided(c, "refusal_not_raised_by_detector:"+label+":"+cellKey, fmt.Sprintf("client error %v, server error %v", cs2.Err, ss2.Err), row.ID, obs)
 			return
 		}
 	}
@@ -1087,10 +1103,10 @@ func (row c27Row) run(c *core.Ctx) {
 		// the targeted message never crossed the wire (e.g. the client sent no CertificateVerify): nothing was corrupted
 		c.Count("wire_fault_not_reached:"+row.Scenario+row.Cred, 1)
 		if isClientAuth && row.Mode != "NoClientCert" {
-			c.Violation("harness:wire_fault_not_applied", "CertificateVerify expected on the wire but not seen before the CCS", row.ID, obs)
+			undecided(c, "harness:wire_fault_not_applied", "CertificateVerify expected on the wire but not seen before the CCS", row.ID, obs)
 		}
 		if !isClientAuth {
-			c.Violation("harness:wire_fault_not_applied", "target handshake message not seen", row.ID, obs)
+			undecided(c, "harness:wire_fault_not_applied", "target handshake message not seen", row.ID, obs)
 		}
 		return
 	}
@@ -1139,7 +1155,7 @@ func (row c27Row) run(c *core.Ctx) {
 			detector, dname = ss, "server (Finished check: the client encrypted to the presented key)"
 		}
 		if !localError(detector.Err) {
-			c.Violation("undecided:refusal_not_raised_by_detector:"+label+":"+cellKey, fmt.Sprintf("expected %s to detect; its error is %v, peer error %v", dname, detector.Err, other.Err), row.ID, obs)
+			undecided(c, "refusal_not_raised_by_detector:"+label+":"+cellKey, fmt.Sprintf("expected %s to detect; its error is %v, peer error %v", dname, detector.Err, other.Err), row.ID, obs)
 			return
 		}
 		// TLS <= 1.2: a refused handshake cannot leave the other side believing it completed
